@@ -99,8 +99,7 @@ Definition model_inputs (fuel : nat) (m : mode) (null : bool) (q : qkind) (stdin
 
 Definition spec_inputs (fuel : nat) (m : mode) (null : bool) (q : qkind) (stdin : fdata)
            (srcs : list (fsrc fdata)) : option (list out) :=
-  let f := fmt_of m in
-  let all := match srcs with [] => data_outs f stdin | _ => flat_map (src_outs f) srcs end in
+  let all := all_outs m stdin srcs in
   let all' := if m_slurp m then (if m_raw m then [slurpraw_spec all []] else [slurp_spec all []]) else all in
   match null, q with
   | false, QId => Some all'
@@ -144,7 +143,6 @@ Fixpoint dict_find (kind : string) (key : str) (d : list sexp) : option sexp :=
 
 (* None = the binding makes the command fail *)
 Definition resolve (d : list sexp) (a : aval) : option sexp :=
-  let ok v := match v with Some (Atom _) => None | x => x end in   (* err is the only atom that is not a value… *)
   match a with
   | AStr s => Some (SList [A "s"; Atom (print_hexs s)])
   | AJson t => match dict_find "json" t d with
